@@ -46,6 +46,7 @@ type Hazards struct {
 	DigitLeadingDir    bool // q
 	StdSingleClash     bool // a': local package named like a single-element std path (sync, context) added before it
 	GoimportsMismatch  bool // s: -fmt goimports with an unaliased import whose package name differs from its path base
+	RegenAliasFeedback bool // o: parameter named like a package that is re-aliased later; the alias is read back on regeneration
 	AliasCapture       bool // t: user parameter named like an alias moq may generate later for an import
 	UnionNamedTerm     bool // r: inline union constraint with a named term (import discovery misses unions)
 }
@@ -61,6 +62,9 @@ type Profile struct {
 	Generic    float64 // probability that an interface is generic
 	MaxDepth   int
 	Runtime    bool // restrict to shapes the runtime driver can drive (exported methods, exported local types)
+	Regen      bool // regeneration corpus: while KF-regeneration-alias-feedback is open, no parameter name (user-written
+	// or type-derived) may equal the name of a dependency package (such a parameter is renamed in the first run
+	// only when the package is re-aliased later, and the alias is then read back from the generated file)
 }
 
 var (
@@ -68,6 +72,7 @@ var (
 	ProfImports = Profile{Name: "imports", NDeps: 9, NIfaces: 10, SameNames: 0.7, Aliases: 0.4, Collide: 0.4, Generic: 0.1, MaxDepth: 2}
 	ProfNaming  = Profile{Name: "naming", NDeps: 4, NIfaces: 12, SameNames: 0.4, Aliases: 0.3, Collide: 0.9, Generic: 0.1, MaxDepth: 2}
 	ProfGeneric = Profile{Name: "generic", NDeps: 4, NIfaces: 10, SameNames: 0.3, Aliases: 0.2, Collide: 0.3, Generic: 0.9, MaxDepth: 2}
+	ProfRegen   = Profile{Name: "regen", NDeps: 8, NIfaces: 10, SameNames: 0.6, Aliases: 0.35, Collide: 0.4, Generic: 0.15, MaxDepth: 2, Regen: true}
 	ProfRuntime = Profile{Name: "runtime", NDeps: 4, NIfaces: 10, SameNames: 0.3, Aliases: 0.2, Collide: 0.3, Generic: 0.25, MaxDepth: 2, Runtime: true}
 )
 
@@ -271,13 +276,16 @@ func (b *builder) makeDeps() {
 		switch {
 		case len(names) > 0 && b.chance(b.prof.SameNames):
 			name = b.pick(names)
-		case b.chance(0.25):
+		case b.chance(0.25) && !(b.prof.Regen && !b.hz.RegenAliasFeedback):
 			name = b.pick(depVarLikePool)
 			if !b.hz.StdSingleClash && (name == "sync" || name == "context") {
 				name = "json"
 			}
 		default:
 			name = b.pick(depNamePool)
+			if b.prof.Regen && !b.hz.RegenAliasFeedback {
+				name = b.pick([]string{"one", "two", "util", "api", "foo", "bar"}) // not the de-capitalised form of any type name
+			}
 		}
 		var dir string
 		for try := 0; ; try++ {
@@ -332,6 +340,9 @@ func (b *builder) makeDeps() {
 	n := 4 + b.rng.Intn(4)
 	for _, i := range perm[:n] {
 		d := *stdDeps[i]
+		if b.prof.Regen && !b.hz.RegenAliasFeedback && d.Path == "html/template" {
+			continue // text/template + html/template: an unnamed template.Template parameter is the open finding's shape
+		}
 		if b.chance(b.prof.Aliases / 2) {
 			d.SrcAlias = b.pick([]string{"std" + d.Name, d.Name + "pkg", "x"})
 		}
